@@ -177,6 +177,12 @@ func (store *ModuleStore) GetModule(name string) (*Module, error) {
 	return m, nil
 }
 
+// removeModule forgets the named module, e.g. after its body failed
+// to run on import
+func (store *ModuleStore) removeModule(name string) {
+	delete(store.modules, name)
+}
+
 // Gets a module or panics
 func (store *ModuleStore) MustGetModule(name string) *Module {
 	m, err := store.GetModule(name)
